@@ -166,7 +166,7 @@ pub fn run(ctx: &Ctx) -> i32 {
     let th = ctx.tier.thorough();
     let fam = family(th);
     let ops_ = ops();
-    let acc = fam.par_iter().enumerate().map(|(ei, (name, e))| {
+    let acc = fam.par_iter().enumerate().with_max_len(1).map(|(ei, (name, e))| {
         let mut acc = Acc::new();
         acc.inc("envelopes");
         let mut any = false;
